@@ -1,9 +1,11 @@
 #!/bin/bash
 # Confirm every seeded change under /verif/seeded myself in a scratch worktree: patch applies, demo FAILS with it, test suite still passes
 # (stable set), demo PASSES without it.  Results -> $HOME/mutant_confirm.log
-LOG=$HOME/mutant_confirm.log; : > $LOG
+filter=${1:-.}
+LOG=$HOME/mutant_confirm.log; [ "$filter" = "." ] && : > $LOG
 WT=/tmp/wtc; rm -rf $WT; git -C /repo worktree prune; git -C /repo worktree add -q --detach $WT HEAD || exit 1
 for d in /verif/seeded/*/; do d=${d%/}; id=$(basename $d); m=""
+  echo "$id" | grep -Eq "$filter" || continue
   [ -f $d/patch.diff ] || { echo "$id MISSING" >> $LOG; continue; }
   git -C $WT checkout -q -- . ; git -C $WT clean -fdq
   ( cd $WT && PYTHONPATH=$WT timeout 600 /venv/bin/python $d/demo.py > /dev/null 2>&1 ); base=$?
